@@ -950,6 +950,52 @@ public:
                         });
                   }
                });
+            // implicit integral narrowing to a character type (the CFG nodes are emitted with implicit casts stripped)
+            J.attributeArray("narrow", [&] {
+                  struct Narrow : RecursiveASTVisitor<Narrow>
+                  {
+                     std::vector<const ImplicitCastExpr *> found;
+                     bool VisitImplicitCastExpr(ImplicitCastExpr *E)
+                     {
+                        if (E->getCastKind() == CK_IntegralCast)
+                        {
+                           found.push_back(E);
+                        }
+                        return(true);
+                     }
+                  } nv;
+                  nv.TraverseStmt(const_cast<Stmt *>(Body));
+                  for (auto *E : nv.found)
+                  {
+                     QualType to = E->getType(), from = E->getSubExpr()->getType();
+                     if (to->isDependentType() || from->isDependentType() || !to->isIntegerType() || !from->isIntegerType())
+                     {
+                        continue;
+                     }
+                     if (Ctx.getTypeSize(to) != 8 || Ctx.getTypeSize(from) <= 8)
+                     {
+                        continue;
+                     }
+                     const Stmt *sub = strip(E->getSubExpr());
+                     J.object([&] {
+                           J.attribute("l", (int64_t)lineOf(E->getBeginLoc()));
+                           J.attribute("to", typeStr(to));
+                           J.attribute("from", typeStr(from));
+                           if (auto *CE = dyn_cast<CallExpr>(sub))
+                           {
+                              const FunctionDecl *D = CE->getDirectCallee();
+                              if (auto *MC = dyn_cast<CXXMemberCallExpr>(CE))
+                              {
+                                 D = MC->getMethodDecl();
+                              }
+                              if (D)
+                              {
+                                 J.attribute("c", qnOf(D));
+                              }
+                           }
+                        });
+                  }
+               });
             J.attribute("entry", (int64_t)G->getEntry().getBlockID());
             J.attribute("exit", (int64_t)G->getExit().getBlockID());
             J.attributeArray("blocks", [&] {
